@@ -49,16 +49,17 @@ Definition abort_msg (g : cfg) (m : msg) : bool :=
   q_abort_unanswered g && validator_reached g m && match m_val m with VAbort _ => true | _ => false end.
 
 (* the three outcomes of _handshake, characterised on the input *)
-Lemma hs_result_cases : forall g m, cfg_facts g ->
-  (is_accepted_msg g m = true /\ hs_result g m = (Some (RConnectOk, m_seq m, m_ser m), HsAccept)) \/
-  (is_accepted_msg g m = false /\ abort_msg g m = true /\ exists k, hs_result g m = (None, HsAbort k)) \/
-  (is_accepted_msg g m = false /\ abort_msg g m = false /\
-   exists r, hs_result g m = (r, HsRefuse) /\ (r = None \/ exists k s i, r = Some (RConnectFail k, s, i))).
+Lemma hs_result_cases : forall g reg m, cfg_facts g ->
+  (is_accepted_msg g reg m = true /\ hs_result g reg m = (Some (RConnectOk, m_seq m, m_ser m), HsAccept)) \/
+  (is_accepted_msg g reg m = false /\ abort_msg g m = true /\ exists k, hs_result g reg m = (None, HsAbort k)) \/
+  (is_accepted_msg g reg m = false /\ abort_msg g m = false /\
+   exists r, hs_result g reg m = (r, HsRefuse) /\ (r = None \/ exists k s i, r = Some (RConnectFail k, s, i))).
 Proof.
-  intros g m F. unfold hs_result, is_accepted_msg, abort_msg, validator_reached.
+  intros g reg m F. unfold hs_result, is_accepted_msg, abort_msg, validator_reached, obj_registered.
   rewrite (cf_first g F), memN_single.
-  destruct (m_wf m), (m_type m =? c_connect g)%N, (m_ser_known m), (m_hs m) as [| | |[]],
+  destruct (m_wf m), (m_type m =? c_connect g)%N, (m_ser_known m), (m_hs m) as [| | |[n|]],
     (m_val m) as [[]|[]|kb], (q_silent_unknown_ser g), (q_silent_validator_cce g), (q_abort_unanswered g); cbn;
+    try (match goal with |- context [reg ?x] => destruct (reg x) end; cbn);
     first [ left; split; reflexivity
           | right; left; split; [reflexivity|]; split; [reflexivity|]; eexists; reflexivity
           | right; right; split; [reflexivity|]; split; [reflexivity|]; eexists; split; [reflexivity|];
@@ -66,15 +67,16 @@ Proof.
 Qed.
 
 (* with both repaired quirks off a refusal is always answered *)
-Lemma hs_result_refuse_answered : forall g m, cfg_facts g ->
+Lemma hs_result_refuse_answered : forall g reg m, cfg_facts g ->
   q_silent_unknown_ser g = false -> q_silent_validator_cce g = false ->
-  is_accepted_msg g m = false -> abort_msg g m = false ->
-  exists k s i, hs_result g m = (Some (RConnectFail k, s, i), HsRefuse).
+  is_accepted_msg g reg m = false -> abort_msg g m = false ->
+  exists k s i, hs_result g reg m = (Some (RConnectFail k, s, i), HsRefuse).
 Proof.
-  intros g m F Q1 Q2. unfold hs_result, is_accepted_msg, abort_msg, validator_reached.
+  intros g reg m F Q1 Q2. unfold hs_result, is_accepted_msg, abort_msg, validator_reached, obj_registered.
   rewrite (cf_first g F), memN_single, Q1, Q2.
-  destruct (m_wf m), (m_type m =? c_connect g)%N, (m_ser_known m), (m_hs m) as [| | |[]],
-    (m_val m) as [[]|[]|kb], (q_abort_unanswered g); cbn; intros A B;
+  destruct (m_wf m), (m_type m =? c_connect g)%N, (m_ser_known m), (m_hs m) as [| | |[n|]],
+    (m_val m) as [[]|[]|kb], (q_abort_unanswered g); cbn;
+    try (match goal with |- context [reg ?x] => destruct (reg x) end; cbn); intros A B;
     try discriminate A; try discriminate B; eexists; eexists; eexists; reflexivity.
 Qed.
 
